@@ -449,6 +449,23 @@ example : let mn := Version.mk' 0 [1] none none (some ⟨.dev, 0⟩) none
   intro mn mx
   exact ⟨by decide, by decide, by decide +kernel, by decide +kernel⟩
 
+/-- **ANY two-member union `<A || >=B` the printer spells `!=X.*` is read back as a union admitting the same versions,
+on EVERY version** (`A` not a post-release) — the real `allows` of both unions, `excludes_single_version` included -/
+theorem wildcard_spelt_union_text_roundtrip (omax tmin : Version) (ho : omax.wf = true) (ht : tmin.wf = true)
+    (hlt : vk omax < vk tmin) (hw : isWildcardCandidate tmin omax true = true) (hnp : omax.isPostrelease = false) :
+    ∃ s c', (VC.union [.rng ⟨none, some omax, false, false⟩, .rng ⟨some tmin, none, true, false⟩]).toStr = .ok s ∧
+      parseConstraint s = .ok c' ∧
+      ∀ p, p.wf = true →
+        c'.allows p = (VC.union [.rng ⟨none, some omax, false, false⟩, .rng ⟨some tmin, none, true, false⟩]).allows p :=
+  wildcard_spelt_union_roundtrip omax tmin ho ht hlt hw hnp
+
+example : let A := Version.mk' 0 [1, 0] none none (some ⟨.dev, 0⟩) none
+    let B := Version.mk' 0 [1, 1] none none (some ⟨.dev, 0⟩) none
+    isWildcardCandidate B A true = true ∧ A.isPostrelease = false ∧
+    (VC.union [.rng ⟨none, some A, false, false⟩, .rng ⟨some B, none, true, false⟩]).toStr = .ok "!=1.0.*" := by
+  intro A B
+  exact ⟨by decide, by decide, by decide +kernel⟩
+
 /-- the unrestricted statement is false of model and code: a version text may end in a separator
 (`1.0post-` is `1.0.post0` for `VERSION_PATTERN`), and in front of the comma that `-` defeats the and-separator's
 `(?<!-)`: `parse_constraint(">=1.0post-").intersect(parse_constraint("<2"))` prints `>=1.0post-,<2`, which
@@ -472,8 +489,8 @@ spellings included).  Proved at string level: single versions, plain ranges, `*`
 whatever the texts of its bounds — it is false (`counterexample_text_trailing_separator`: the `text` field is
 what the user wrote).  The wildcard spellings `==X.*` / `!=X.*` are proved for the constraints the parser builds
 for wildcard clauses (`wildcard_eq_text_roundtrip`, `wildcard_ne_text_roundtrip`); and any range the printer spells `==X.*` is read back
-membership-equivalently on every version (`wildcard_spelt_range_text_roundtrip`); not proved: algebra-produced unions
-spelt `!=X.*` other than the parser's, and wildcards on post-releases (`==1.0.post1.*`) — on the real code a grid of
+membership-equivalently on every version (`wildcard_spelt_range_text_roundtrip`), likewise any two-member union spelt `!=X.*`
+(`wildcard_spelt_union_text_roundtrip`); not proved: wildcards on post-releases (`==1.0.post1.*`) — on the real code a grid of
 128 wildcard-spelt ranges and 102 wildcard-spelt unions (post-releases included) re-parses membership-equivalently. -/
 def text_roundtrip_full_statement : Prop :=
   ∀ c : VC, c.WF → c.isEmpty = false →
